@@ -16,19 +16,20 @@ func (v *ScriptView) writeCreateSQLForATable(
 ) {
 	v.stringBuilder.WriteString(fmt.Sprintf("CREATE TABLE %s(\n", tableName))
 	var foreignKeyConstraints, primaryKeys, attrNames []string
-	var lineNumbers []int32
-	lineNumberMap := map[int32]string{}
+	// columns in source-line order; columns declared in different files may share a line number,
+	// so the name breaks ties
 	for columnName := range table.AttrDefs {
-		column := table.AttrDefs[columnName]
-		lineNumber := column.GetSourceContext().GetStart().GetLine() // nolint:staticcheck
-		lineNumberMap[lineNumber] = columnName
-		lineNumbers = append(lineNumbers, lineNumber)
+		attrNames = append(attrNames, columnName)
 	}
-	sort.Slice(lineNumbers, func(i, j int) bool { return lineNumbers[i] < lineNumbers[j] })
-	for _, lineNo := range lineNumbers {
-		attrName := lineNumberMap[lineNo]
-		attrNames = append(attrNames, attrName)
+	lineOf := func(name string) int32 {
+		return table.AttrDefs[name].GetSourceContext().GetStart().GetLine() // nolint:staticcheck
 	}
+	sort.Slice(attrNames, func(i, j int) bool {
+		if li, lj := lineOf(attrNames[i]), lineOf(attrNames[j]); li != lj {
+			return li < lj
+		}
+		return attrNames[i] < attrNames[j]
+	})
 	var tableData string
 	for _, attrName := range attrNames {
 		attrType := table.AttrDefs[attrName]
